@@ -10,8 +10,8 @@ from pbt.run import Violation  # noqa: F401  (re-exported for replays)
 
 ID = 'C18'
 LEVEL = 'fault_enumeration'
-RULE = ('A case is a generated audit trail on the in-memory ZooKeeper: 2-9 '
-        'app instances (scheduled or not, several per trace shard) with 0-6 '
+RULE = ('A case is a generated audit trail on the in-memory ZooKeeper: 2-7 '
+        'app instances (scheduled or not, several per trace shard) with 0-5 '
         'trace events each whose timestamps straddle now - expires_after '
         '(microseconds to weeks either side), /finished records with '
         'generated mtimes, 0-3 servers with server-trace events, 0-4 existing '
@@ -102,7 +102,7 @@ def _event(draw, old_bias):
 
 @st.composite
 def _instances(draw):
-    count = draw(st.integers(2, 9))
+    count = draw(st.integers(2, 7))
     # few shards, several instances per shard (id % 256 picks the shard)
     bases = draw(st.lists(st.sampled_from([1, 2, 3, 123, 255]), min_size=1,
                           max_size=3, unique=True))
@@ -116,7 +116,7 @@ def _instances(draw):
         ident = base + 256 * mult
         used.add(ident)
         scheduled = draw(st.integers(0, 9)) < 3
-        events = draw(st.lists(_event(True), min_size=0, max_size=6))
+        events = draw(st.lists(_event(True), min_size=0, max_size=5))
         fin = None
         if draw(st.integers(0, 9)) < 6:
             fin = {
@@ -144,7 +144,7 @@ def _servers(draw):
                                  st.integers(0, 30 * DAY)),
                 'k': st.integers(0, 2),
                 'v': st.integers(0, 8),
-            }), min_size=0, max_size=5))
+            }), min_size=0, max_size=4))
         res.append({'name': name, 'events': events})
     return res
 
